@@ -132,3 +132,62 @@ def chunkings(rng, data, how):
         out.append(data[prev:c]); prev = c
     out.append(data[prev:])
     return out
+
+
+# ----------------------------------------------------------------------------------------------
+# token-list documents: every insertion point for an extension is known (used by C01 C15 C16)
+
+def tdoc(rng, depth, maxdepth, size=4):
+    """returns a list of (kind, bytes) tokens of a random RFC 8259 value;
+    kinds: ws, open, close, comma, colon, string, key, number, literal"""
+    k = rng.random()
+    can_nest = depth < maxdepth
+
+    def w():
+        s = ws(rng)
+        return [("ws", s)] if s else []
+    if k < 0.25 and can_nest:
+        n = rng.randrange(0, size)
+        out = [("open", b"[")]
+        if n == 0:
+            out += w()
+        for i in range(n):
+            if i:
+                out.append(("comma", b","))
+            out += w() + tdoc(rng, depth + 1, maxdepth, size) + w()
+        return out + [("close", b"]")]
+    if k < 0.50 and can_nest:
+        n = rng.randrange(0, size)
+        out = [("open", b"{")]
+        if n == 0:
+            out += w()
+        for i in range(n):
+            if i:
+                out.append(("comma", b","))
+            key = b'"' + (rng.choice([b"a", b"b", b"k", b""]) if rng.chance(0.5) else gen_string_body(rng, 5, key=True)) + b'"'
+            out += w() + [("key", key)] + w() + [("colon", b":")] + w() + tdoc(rng, depth + 1, maxdepth, size) + w()
+        return out + [("close", b"}")]
+    if k < 0.65:
+        return [("string", b'"' + gen_string_body(rng) + b'"')]
+    if k < 0.88:
+        return [("number", gen_number(rng))]
+    return [("literal", rng.choice([b"true", b"false", b"null"]))]
+
+
+def ttext(tokens):
+    return b"".join(t[1] for t in tokens)
+
+
+def nested(rng, depth, leafdepth_kind="mixed"):
+    """a document whose deepest value is enclosed by exactly `depth` containers; empty containers and
+    member values / elements at the boundary"""
+    if depth == 0:
+        return rng.choice([b"1", b'"x"', b"null", b"[]", b"{}", b"[ ]", b"{ }", b"-2.5e3"])
+    inner = nested(rng, depth - 1)
+    pad_before = rng.choice([b"", b"1,", b'"s", ', b"[],", b"{},"])
+    pad_after = rng.choice([b"", b",2", b", []", b",{}"])
+    if rng.chance(0.5):
+        return b"[" + ws(rng) + pad_before + inner + pad_after + ws(rng) + b"]"
+    kb = rng.choice([b'"a":0,', b"", b'"q":[],'])
+    ka = rng.choice([b"", b',"z":null', b',"y":{}'])
+    return b"{" + ws(rng) + kb + b'"k"' + ws(rng) + b":" + ws(rng) + inner + ka + ws(rng) + b"}"
